@@ -254,7 +254,7 @@ func init() {
 		ID: "C13",
 		Rule: "well-formed texts with free layout: DIMACS CNF (1..9 variables + up to 2 unused, messy or uniform clauses, comments between clauses, several clauses per line, clauses broken over lines, tabs, CRLF, optional final newline) through solver.ParseCNF and explain.ParseCNF; OPB (1..9 variables, >= and = constraints with coefficients -5..5 and any degree, optional 'min:' objective, comment lines, optional '+', 1 case in 25 with the operator glued to the integer) through solver.ParseOPB; WCNF (as for C04) through maxsat.ParseWCNF. The parsed problem is read back (units + constraints + cost function) and its model set and per-model cost are compared with the text's meaning by the verified GS.modelsOver / GS.cost. Non-trivial = at least 2 constraints; distinct = distinct text.",
 		Gens:    []Gen{{Name: "text", Weight: 1, Make: func(r *Rng, tier string) interface{} { return genFormatCase(r, tier) }}},
-		Slices:  []SliceRef{{"XCNFBYTES", 3000, 60000}},
+		Slices:  []SliceRef{{"XCNFBYTES", 3000, 60000}, {"XTEXTBYTES", 3000, 60000}},
 		Run:     runFormatCase,
 		Classify: func(d json.RawMessage) []string {
 			var c FormatCase
